@@ -17,7 +17,7 @@ ints), slices with any step sign, Ellipsis, ONE 1-d integer list / NumPy array /
 duplicates (same value), empty), ONE 1-d boolean list / NumPy array / dask array, multi-axis combinations of
 those, a full-shape boolean mask (NumPy or dask) as the sole index.  No None (not documented for assignment).
 Values: Python / NumPy scalars, 0-d arrays, NumPy arrays and nested lists of the selection shape, broadcastable
-shapes (leading axes dropped, size-1 axes), dask arrays with random chunkings.
+shapes (leading axes dropped, size-1 axes, 1-2 extra leading length-1 axes), dask arrays with random chunkings.
 
 Labels: as in C20 the failing index is shrunk; then the value is simplified (scalar, then plain NumPy array of the
 full selection shape).  ``setitem:<index tokens>[&split-chunks][&zero-length-axis]&value=<kind>:<symptom>``.
@@ -33,9 +33,9 @@ Calibration
   first, so the *value* shape differs between NumPy and dask's orthogonal reading.  Same mechanism as the C20
   finding; only scalar-like values are generated for such indices (the result then is well defined and equal).
 * NaN / inf into integer arrays and lossy casts are not generated (value dtype = array dtype).
-* Values with *extra leading size-1 axes* (x[0] = np.ones((1, 3))) are a NumPy assignment leniency, not
-  broadcasting to the selection shape; the statement says "broadcastable value", so they are not generated
-  (side observation while calibrating: dask accepts them without, and fails with, an integer index).
+* Values with 1-2 *extra leading length-1 axes* (x[1, :] = np.arange(6.).reshape(1, 6); value mode ``lead1``) were
+  first left out as "a NumPy leniency, not broadcasting"; NumPy accepts them and the lead asked for them, so they
+  are generated (NumPy / list / dask values; counter ``leading_1_axes_values``, value token ``leading-1-axes-array``).
 * n-d NumPy boolean masks are not among the documented assignment indices (dask raises IndexError): rejected.
 * Family labels ``int+negative-step-slice`` and ``int+int-array`` with symptom classes raises | wrong-result: the shrunk
   forms and exception sites of these two setitem_array defects varied from seed to seed (thorough run).
@@ -60,17 +60,17 @@ RULE = ("cases = (shape, chunking, dtype, encoded index, value mode). Complete p
         "(3,2) (8) (thorough also (6,) and (2,2,2)) x a fixed list of index/value patterns (slices of both signs, empty "
         "slices, ints, integer lists sorted/unsorted/negative/duplicate/empty, boolean lists/arrays, dask int and bool "
         "indexers, Ellipsis, full-shape masks, multi-axis combinations; scalar, full, broadcast and dask values). Random part: "
-        "1-4 d arrays with axis lengths 0-9, random chunkings (7 % with a zero-size chunk inside an axis), random documented index tuples, 7 value modes (scalar, NumPy scalar, 0-d, full, trailing axes, size-1 axes, all-size-1) x {NumPy, list, "
+        "1-4 d arrays with axis lengths 0-9, random chunkings (7 % with a zero-size chunk inside an axis), random documented index tuples, 8 value modes (scalar, NumPy scalar, 0-d, full, trailing axes, size-1 axes, all-size-1, extra leading length-1 axes) x {NumPy, list, "
         "dask}. non-trivial = some axis split into >= 2 chunks; distinct = distinct (shape, chunks, dtype, index, value mode).")
 ASSUMPTIONS = ["NumPy 2.x assignment defines the expected array", "sync scheduler (threads for a tenth)"]
 BUDGET = {"quick": 120, "thorough": 900}
 FLOORS = {"quick": {"evaluations": 3000, "distinct_nontrivial": 2300,
                     "counters": {"compared": 3000, "chunks_unchanged_checked": 2700, "input_not_mutated_checked": 2700,
-                                 "blocks_checked": 2700, "dask_values": 500},
+                                 "blocks_checked": 2700, "dask_values": 500, "leading_1_axes_values": 1},
                     "sets": {"index_feature_tokens": 45}, "max_skipped_fraction": 0.2},
           "thorough": {"evaluations": 45000, "distinct_nontrivial": 36000,
                        "counters": {"compared": 45000, "chunks_unchanged_checked": 40000, "input_not_mutated_checked": 40000,
-                                    "blocks_checked": 40000, "dask_values": 8000},
+                                    "blocks_checked": 40000, "dask_values": 8000, "leading_1_axes_values": 1},
                        "sets": {"index_feature_tokens": 60}, "max_skipped_fraction": 0.2}}
 EXHAUSTIVE_SPACE = {
     "quick": "all chunkings of shapes (5,) and (3,2) x the fixed index/value pattern list (PATTERNS_1D, PATTERNS_2D)",
@@ -105,7 +105,7 @@ FIXED = {
 }
 
 DTYPES = ["int64", "int64", "float64", "float64", "int32", "float32", "complex128", "bool", "datetime64[ns]"]
-VMODES = ["scalar", "scalar", "npscalar", "np0d", "full", "full", "full", "trail", "trail", "ones", "ones", "size1"]
+VMODES = ["scalar", "scalar", "npscalar", "np0d", "full", "full", "full", "trail", "trail", "ones", "ones", "size1", "lead1", "lead1"]
 VKINDS = ["np", "np", "list", "dask", "dask"]
 
 
@@ -144,6 +144,8 @@ PATTERNS_1D = [
     ([L([3, 1, 3])], "full", "np"), ([L([])], "scalar", "np"), ([L([4, 0, 2], "np")], "full", "dask"), ([L([1, 3], "dask")], "full", "np"),
     ([L([4, 2, 0], "dask")], "scalar", "np"),
     ([B([1, 0, 1, 0, 1])], "full", "np"), ([B([0, 1, 1, 0, 0], "np")], "scalar", "np"), ([B([1, 1, 0, 0, 1], "np")], "full", "dask"),
+    ([S()], "lead1", "np"), ([S(None, None, -2)], "lead1", "dask"), ([I(2), ELL], "lead1", "np"), ([L([4, 1, 2])], "lead1", "list"),
+    ([B([1, 0, 1, 1, 0], "np")], "lead1", "np"),
     ([B([0, 0, 0, 0, 0], "np")], "scalar", "np"), ([B([1, 0, 0, 1, 1], "dask")], "scalar", "np"), ([ELL], "full", "np"), ([ELL], "scalar", "np"),
 ]
 PATTERNS_2D = [
@@ -391,6 +393,8 @@ def run_case(case, ctx):
         ctx.count("blocks_checked")
         if "dask" in out.vdesc:
             ctx.count("dask_values")
+        if out.vmode == "lead1":
+            ctx.count("leading_1_axes_values")
         ctx.sample = {"index": IX.show(enc), "chunks": case["chunks"], "value": out.vdesc}
         return
     # x[mask] and, for n-d masks, x[(mask,)] go through where(mask, value, x)
@@ -461,7 +465,7 @@ def classify(shape, chunks, dtype, enc, bare, vmode, vkind, vseed, sym):
     if sym_m not in MISMATCH_SYMPTOMS:
         enc_m, shape_m, chunks_m, sym_m = IX.shrink(enc_m, shape_m, chunks_m, probe, sym_m, accept=lambda s: s not in MISMATCH_SYMPTOMS)
     vm, vk = state["vmode"], state["vkind"]
-    vtok = "scalar" if vm in SCALARLIKE else "array"
+    vtok = "scalar" if vm in SCALARLIKE else "leading-1-axes-array" if vm == "lead1" else "array"
     feat = IX.label_features(enc_m, shape_m, chunks_m)
     label = "setitem:%s&value=%s:%s" % (feat, vtok, sym_m)
     toks = IX.tokens(enc_m, shape_m)
